@@ -24,6 +24,26 @@ PROPS = {
         assumptions=["reference shape decider is right", "schema printer emits what the model says (cross-checked by C16)"],
         jobs=[job("shape", "^TestShape$", (4, 16), (2500, 20000), (300, 3000))],
     ),
+    "C06": dict(
+        pkg="c06", level="exploration",
+        packages={"c06h": dict(optional=True, hooks={"jschemainternal.go": "notations/jschema/verifhook/hook.go",
+                                                     "enumscan.go": "rules/enum/verif_hook.go"})},
+        technique="model-based testing: expected event stream computed from a generated JSON model with printer-recorded byte spans; round-trip (value rebuilt from events); differential between the three cloned scanners via overlay hooks",
+        level_text=("Bounded exploration: for generated valid JSON texts (depth<=8, width<=8, all scalar forms, arbitrary blanks) the NextLexeme stream is compared "
+                    "with the stream the model implies (nesting, spans inside input, literal/key/container spans exact), the value is rebuilt from events alone, "
+                    "and through add-only overlay hooks the schema and enum scanners' streams are compared with the document scanner's. Sampled plus a small exhaustive tier."),
+        level_note="trusted: reference JSON parser and printer (cross-checked against each other on every case); value-end/item-end spans are only required to lie inside the input and begin at their partner's begin",
+        rule=("inputs: valid JSON texts printed from rapid-generated models (depth 0-8, width 0-8, exponents, -0, long digit strings, every escape kind, surrogate pairs, "
+              "2-4 byte UTF-8 in keys and values, empty and nested-empty containers, duplicate keys, blanks drawn per token gap incl. none), plus every valid text that is a "
+              "concatenation of <=6/7 symbols of a 13-symbol alphabet; hook half: texts legal in all three syntaxes (no exponents; enum: flat array of distinct scalars). "
+              "non-trivial = top-level container and at least one of {escape, multi-byte rune, exponent, empty container, number as last byte}; distinct by text"),
+        assumptions=["reference parser/printer agree with each other on every generated case (asserted)", "hooks are add-only files injected by -overlay"],
+        jobs=[
+            job("events", "^TestDocEvents", (2, 16), (6000, 60000), (300, 3000)),
+            job("three-scanners", "^TestThreeScanners$", (2, 16), (5000, 50000), (300, 3000), pkg="c06h"),
+            job("fuzz", "", (0, 0), (0, 0), (0, 0), fuzz="FuzzLexemes", fuzztime=90, tiers=("thorough",)),
+        ],
+    ),
     "C05": dict(
         pkg="c05", level="exploration", exhaustive_claim=False,
         technique="differential testing against an independent RFC 8259 recogniser: bounded-exhaustive enumeration + rapid grammar/mutation generation + go native fuzzing",
